@@ -7,6 +7,9 @@ import (
 	"encoding/hex"
 	"fmt"
 	"runtime"
+	"strings"
+
+	"github.com/theQRL/go-qrllib/simsched"
 
 	"github.com/theQRL/go-qrllib/common"
 	"github.com/theQRL/go-qrllib/dilithium"
@@ -264,6 +267,9 @@ func (f *Fix) exec(c Call, priv *xmss.XMSS, h *held) (res string) {
 			kind := "panic"
 			if _, ok := r.(runtime.Error); ok {
 				kind = "runtime-panic"
+			}
+			if msg, ok := r.(string); ok && strings.HasPrefix(msg, "simsched:") && msg != simsched.StepBound {
+				panic(r) // a scheduler limitation is a harness fault (exit 2), never a result
 			}
 			res = fmt.Sprintf("%s:%T:%v", kind, r, r)
 			if len(res) > 200 {
